@@ -33,6 +33,44 @@ theorem ends_exactly_once (ls : List Label) (s : St) (m : Nat) (h : run (repaire
     have := inv.uOnce id rid
     omega
 
+/-! #### what the subscription logger is told (`seen`): subscriptions only -/
+
+/-- **no Unsubscribe without its Subscribe**: the logger is never told that something ended which it
+was not told had begun (a mutation, which is kept in the same map, ends without a word) -/
+theorem unsub_has_sub (log : List Ev) (id rid : Nat) (h : Ev.U id rid ∈ seen log) : Ev.S id rid ∈ seen log := by
+  simp only [seen, List.mem_filter, keptBy] at h ⊢
+  have hs : Ev.S id rid ∈ log := by simpa using h.2
+  exact ⟨hs, trivial⟩
+
+theorem seen_S (log : List Ev) (id rid : Nat) : Ev.S id rid ∈ seen log ↔ Ev.S id rid ∈ log := by
+  simp [seen, keptBy]
+
+theorem seen_count_U (log : List Ev) (id rid : Nat) (hs : Ev.S id rid ∈ log) :
+    (seen log).count (Ev.U id rid) = log.count (Ev.U id rid) := by
+  have hk : keptBy log (Ev.U id rid) = true := by simpa [keptBy] using hs
+  simp [seen, List.count_filter, hk]
+
+/-- **every Subscribe the logger saw is matched by exactly one Unsubscribe** once nothing is
+registered any more -/
+theorem ends_exactly_once_as_logged (ls : List Label) (s : St) (m : Nat) (h : run (repairedWith m) init ls = some s)
+    (hc : s.subs = []) (id rid : Nat) (hs : Ev.S id rid ∈ seen s.log) : (seen s.log).count (Ev.U id rid) = 1 := by
+  have hs' := (seen_S s.log id rid).mp hs
+  rw [seen_count_U s.log id rid hs']
+  exact ends_exactly_once ls s m h hc id rid hs'
+
+/-- the logger never sees two Unsubscribe for one subscription -/
+theorem never_ends_twice_as_logged (ls : List Label) (s : St) (m : Nat) (h : run (repairedWith m) init ls = some s)
+    (id rid : Nat) : (seen s.log).count (Ev.U id rid) ≤ 1 := by
+  have h1 : (seen s.log).count (Ev.U id rid) ≤ s.log.count (Ev.U id rid) := by
+    simp only [seen]; exact List.Sublist.count_le _ List.filter_sublist
+  exact Nat.le_trans h1 (never_ends_twice ls s m h id rid)
+
+/-- the code before the repair C17-4 reported the end of a mutation: subscribe 1, unsubscribe 1,
+mutate 1 (which runs and is removed) - the logger saw Subscribe(1), Unsubscribe(1), Unsubscribe(1) -/
+theorem old_mutation_reported_as_ended :
+    (run repaired init [.subscribe 1 true, .closeSub 1 none, .mutate 1 true, .runOk 1, .closeSub 1 (some 1)]).map
+      (fun s => (s.log, seen s.log)) = some ([Ev.S 1 0, Ev.U 1 0, Ev.U 1 1], [Ev.S 1 0, Ev.U 1 0]) := by decide
+
 /-- a subscription that is still registered has not been reported as ended -/
 theorem open_while_registered (ls : List Label) (s : St) (m : Nat) (h : run (repairedWith m) init ls = some s) (id rid : Nat)
     (e : Entry) (he : e ∈ s.subs) (hr : e.rid = rid) : Ev.U id rid ∉ s.log := by
